@@ -393,6 +393,12 @@ def gen_project(rng, idx: int, kind: str, extra: T.List[str], nsites: int) -> T.
         # F5 the program given as a found program or as a string
         rt([NL, 'p', w], [])
         rt([NL, 'p', w], [], prog=msn(sys.executable))
+        # a generator whose two argument sources carry the same strings: rewritten in `arguments`, untouched in extra_args
+        same = ['a\\b', '@INPUT@ x', 'r=@SOURCE_ROOT@', "it's", '$x', '@BUILD_DIR@/y\\z']
+        L.append("gen_g90 = generator(py, output: '@BASENAME@.h', arguments: [meson.current_source_dir() / 'dump.py'"
+                 f"{''.join(', ' + msn(a) for a in same)}, '@EXTRA_ARGS@', '@INPUT@', '@OUTPUT@'])")
+        L.append(f"executable('xg90', 'main.c', gen_g90.process('g90.in', extra_args: {msl(same)}))")
+        sites.append(Site('g90', 'generator', 'plain', same, [], same))
         # F6 the same boundary shifts through `--internal exe` (capture) and directly
         for sp in splits[:3]:
             ct(sp, [], ['capture: true'], 'crosstalk-capture')
@@ -923,7 +929,11 @@ def _evaluate_project(ctx: Ctx, root: str, b: str, dumpdir: str, kind: str, site
             else:
                 words = ldec(r[3:].split(';')[-1]) if r.startswith('ok:') else None
             objs = list(st['ins'])
-            if words is None or words[-len(objs):] != objs or words[-len(objs) - 1:-len(objs)] != list(st['outs']):
+            # plain: `… ar <flags> <out> <objects…>`; _RSP: the file holds exactly the objects (`rspfile_content = $in`)
+            bad = words is None or words[-len(objs):] != objs or \
+                (is_rsp and len(words) != len(objs)) or \
+                (not is_rsp and words[-len(objs) - 1:-len(objs)] != list(st['outs']))
+            if bad:
                 ctx.violation(key_of(s) + ':' + st['rule'], f'static link ({st["rule"]}): the archiver would receive '
                               f'{words!r}; the statement lists output {st["outs"]!r} and {len(objs)} objects',
                               case_of(kind, s, {'rule': st['rule']}))
